@@ -47,7 +47,10 @@ THEOREMS = [P_ + n for n in (
     'rdmEntries_spec', 'single_rdesc_attached', 'calcTop_one', 'calcTop_many',
     'calcTop_singleton', 'list_rdesc_attached', 'mergeStacks_spec', 'movie_frame_options',
     'topMovie_spec', 'movie_list_options', 'movieTop_forms', 'parse_int_eq_float',
-    'parse_container', 'condMeansInt_eq')]
+    'parse_container', 'condMeansInt_eq',
+    # round 4: reuse sessions (memory model: which array a call writes to)
+    'parseInput_keeps_dataset', 'call_keeps_dataset', 'session_calls_independent',
+    'session_call_value')]
 RULE = ('one PRNG drives everything. A case is one calc_rdm / calc_rdm_movie call: dataset(s) of '
         '2-14 observations x 1-6 channels with values that are small integers or eighths, int or '
         'str labels (balanced or not, shuffled), extra obs descriptors (constant / varying within '
@@ -61,7 +64,13 @@ RULE = ('one PRNG drives everything. A case is one calc_rdm / calc_rdm_movie cal
         'list / tuple / 3-D array; priors given or left to the defaults. Each case carries a variant '
         '(observation permutation, list/array descriptors, int/float dtype, C / Fortran / strided memory '
         'layout, ds vs [ds]); the model\'s call layer is executed on the variant form and on the base form '
-        'and both answers must agree. Non-trivial = at least 2 conditions and not all '
+        'and both answers must agree. Reuse sessions (11 %): one or two Dataset / TemporalDataset objects '
+        '(float64 / int64 / float32; C / Fortran / strided) are built once and analysed by 2-4 successive '
+        'calc_rdm / calc_rdm_movie calls with different methods and options (correlation or '
+        'remove_mean=True first in 3 of 4), with and without the condition descriptor, bare, as [ds] and as '
+        'a list of both; every call is judged against the model / the formula on the case\'s original exact '
+        'numbers and the objects must be bit-identical (measurements and all descriptors) after every '
+        'call. Non-trivial = at least 2 conditions and not all '
         'dissimilarities equal; distinct = distinct (kind, method, options, data, variant).')
 BRANCHES = ['desc:none', 'desc:given', 'avg:yes', 'avg:no', 'noise:none', 'noise:matrix',
             'noise:list', 'list:labelled', 'list:unlabelled', 'list:single', 'list:missing', 'list:aligned',
@@ -76,8 +85,20 @@ BRANCHES = ['desc:none', 'desc:given', 'avg:yes', 'avg:no', 'noise:none', 'noise
             'movie:nodesc_repeated', 'movie:bins_tuple', 'movie:bins_array2d',
             'movie:bins_overlap', 'movie:bins_foreign', 'movie:bins_dupval', 'movie:dtype_int',
             'noise:array3d', 'noise:tuple', 'layout:F', 'layout:strided', 'form:base_checked',
-            'means:int', 'priors:default', 'priors:given']
+            'means:int', 'priors:default', 'priors:given',
+            # round 4: reuse sessions
+            'session:plain', 'session:temporal', 'session:dtype_float', 'session:dtype_int',
+            'session:dtype_float32', 'session:layout_F', 'session:layout_strided',
+            'session:writer_first_nodesc_float64', 'session:correlation_first',
+            'session:remove_mean_first', 'session:nodesc_then_desc', 'session:desc_then_nodesc',
+            'session:nodesc_then_nodesc', 'session:desc_then_desc', 'session:single_then_list',
+            'session:list_then_single', 'session:list_step', 'session:two_datasets',
+            'session:method_changes', 'session:remove_mean_changes', 'session:bins_change',
+            'session:later_euclidean', 'session:later_correlation', 'session:later_mahalanobis',
+            'session:later_poisson', 'session:steps_2', 'session:steps_4']
 ASSUMPTIONS = [
+    'float32 measurements (reuse sessions only) are computed with in single precision by the library: '
+    'tolerance 1e-4 relative / 2e-5 absolute there',
     'float64 evaluation of either side is within 1e-9 relative / 1e-12 absolute of the exact value '
     '(inputs are small integers / eighths, well-conditioned by construction)',
     'correlation is only asked for condition means that are not constant across channels; poisson '
@@ -486,18 +507,184 @@ def gen_unique(rng):
             'as_array': rng.random() < 0.5}
 
 
+# ------------------------------------------------------------------ reuse sessions (round 4)
+# One Dataset / TemporalDataset object (or two) is built ONCE and then analysed by 2-4 successive
+# calc_rdm / calc_rdm_movie calls with different methods and options, with and without the condition
+# descriptor, bare and as a list.  Every call is judged against the formula on the ORIGINAL numbers
+# of the case (the exact rationals below, which the library never sees), and the objects'
+# measurements and descriptors must be bit-identical after every call.
+
+SESSION_DTYPES = ['float', 'float', 'float', 'int', 'int', 'float32']
+
+
+def _writer_prone(st):
+    """a call whose estimator centres / normalises its working copy of the patterns"""
+    return st['method'] == 'correlation' or bool(st['remove_mean'])
+
+
+def _session_steps(rng, P, n_ds, temporal):
+    n_steps = rng.choice([2, 3, 3, 4])
+    steps = []
+    for i in range(n_steps):
+        if i == 0 and rng.random() < 0.75:
+            # correlation / remove_mean=True first: these are the calls that centre and normalise
+            method = rng.choice(['correlation', 'correlation', 'euclidean', 'mahalanobis'])
+        else:
+            method = rng.choice(['euclidean', 'correlation', 'mahalanobis', 'poisson'])
+        if temporal:
+            which = list(range(n_ds)) if n_ds > 1 and rng.random() < 0.6 else [rng.randrange(n_ds)]
+            st = {'kind': 'movie', 'which': which,
+                  'as_list': len(which) > 1 or rng.random() < 0.25}
+        elif n_ds > 1 and rng.random() < 0.5:
+            st = {'kind': 'list', 'which': list(range(n_ds)), 'wrap': 'single'}
+        else:
+            st = {'kind': 'single', 'which': [rng.randrange(n_ds)],
+                  'wrap': 'list1' if rng.random() < 0.3 else 'single'}
+        st.update(_method_opts(rng, method, P, len(st['which']), allow_rm=not temporal))
+        if i == 0 and not temporal and method in ('euclidean', 'mahalanobis'):
+            st['remove_mean'] = True
+        st['use_desc'] = rng.random() < (0.3 if i == 0 else 0.5)
+        nz = st['noise']
+        if isinstance(nz, dict) and 'per' in nz:
+            if len(st['which']) == 1:
+                st['noise'] = {'one': nz['per'][0] or _noise(rng, P)}
+            elif temporal or not st['use_desc']:
+                # concat refuses to mix 'squared euclidean' (None entry) with 'squared mahalanobis'
+                nz['per'] = [m or _noise(rng, P) for m in nz['per']]
+                nz.setdefault('container', rng.choice(['list', 'tuple', 'array3d']))
+        steps.append(st)
+    return steps
+
+
+def gen_session(rng):
+    temporal = rng.random() < 0.3
+    n_ds = 2 if rng.random() < 0.35 else 1
+    for _outer in range(200):
+        P = rng.randint(2, 4 if temporal else 5)
+        steps = _session_steps(rng, P, n_ds, temporal)
+        methods = {st['method'] for st in steps}
+        dom = 'poisson' if 'poisson' in methods else rng.choice(['euclidean', 'poisson'])
+        eighths = rng.random() < 0.5
+        conds = _labels(rng, rng.choice([2, 3, 3, 4]))
+        case = {'kind': 'session', 'temporal': temporal, 'P': P, 'steps': steps}
+        first = _gen_dataset(rng, P, dom, True, conds=conds, eighths=eighths)
+        dss = [first]
+        for _ in range(n_ds - 1):       # same observations / descriptors, other measurements
+            d = json.loads(json.dumps(first))
+            d['ddesc'] = dict(first['ddesc'])
+            if 'subj' in d['ddesc']:
+                d['ddesc']['subj'] = d['ddesc']['subj'] % 9 + 1
+            dss.append(d)
+        n = len(first['X'])
+        if temporal:
+            T = rng.randint(2, 4)
+            times = rng.sample([F(k, 4) for k in range(-4, 24)], T)
+            if rng.random() < 0.6:
+                times.sort()
+            case['times'] = [rat(t) for t in times]
+            case['tname'] = rng.choice(['time', 'time', 'onset'])
+            case['tdesc_type'] = rng.choice(['array', 'array', 'list'])
+            for st in steps:
+                bins = None
+                if rng.random() < 0.55:
+                    vals = list(times)
+                    rng.shuffle(vals)
+                    nb = rng.randint(1, len(vals))
+                    cuts = sorted(rng.sample(range(1, len(vals)), nb - 1)) if nb > 1 else []
+                    bins = [vals[a:b] for a, b in zip([0] + cuts, cuts + [len(vals)])]
+                    if rng.random() < 0.3 and len(bins) > 1:
+                        bins = bins[:-1]
+                    if not st['use_desc'] and \
+                            len({len(s) for _tv, s in _frame_groups(times, bins)}) > 1:
+                        bins = None
+                st['bins'] = None if bins is None else [[rat(t) for t in b] for b in bins]
+                st['tform'] = {'default_time': False, 'tdesc_type': case['tdesc_type'],
+                               'bins_type': rng.choice(['array', 'list', 'tuple'])}
+            for d in dss:
+                d['descs'] = {k: v for k, v in d['descs'].items() if k in ('cond', 'grp')}
+        ok = True
+        for d in dss:
+            for _try in range(50):
+                if temporal:
+                    X3 = [[[_val(rng, dom, eighths) for _ in range(len(case['times']))]
+                           for _ in range(P)] for _ in range(n)]
+                    good = all(_movie_ok(X3, d['labels'] if st['use_desc'] else None,
+                                         [fr(t) for t in case['times']],
+                                         None if st['bins'] is None else
+                                         [[fr(x) for x in b] for b in st['bins']])
+                               for st in steps if st['method'] == 'correlation')
+                    if good:
+                        d['X'] = [[[rat(v) for v in ch] for ch in ob] for ob in X3]
+                        break
+                else:
+                    X = [[_val(rng, dom, eighths) for _ in range(P)] for _ in range(n)]
+                    good = 'correlation' not in methods or not (
+                        _const_rows(X) or _const_rows(list(_cond_means(X, d['labels']).values())))
+                    if good:
+                        d['X'] = [[rat(v) for v in row] for row in X]
+                        break
+            else:
+                ok = False
+        if not ok:
+            continue
+        case['datasets'] = dss
+        dt = rng.choice(SESSION_DTYPES)
+        if dt == 'int' and not _all_int(dss):
+            dt = 'float'
+        case['variant'] = {'desc_type': rng.choice(['list', 'array']), 'dtype': dt,
+                           'wrap': 'single', 'perm': None,
+                           'layout': rng.choice(['C', 'C', 'F']) if temporal
+                           else rng.choice(['C', 'C', 'F', 'strided'])}
+        return case
+    raise RuntimeError('could not generate a session')
+
+
+def _subcase(case, i):
+    """step `i` of a session as a stand-alone case of kind single / list / movie (same numbers)"""
+    st = case['steps'][i]
+    var = dict(case['variant'])
+    if var['dtype'] == 'float32':
+        var['dtype'], var['np_dtype'] = 'float', 'float32'
+    var['wrap'] = st.get('wrap', 'single')
+    sub = {'kind': st['kind'], 'P': case['P'], 'variant': var, 'in_session': True}
+    for k in ('method', 'noise', 'pl', 'pw', 'remove_mean', 'opts_given'):
+        sub[k] = st[k]
+    sub['datasets'] = [{'X': case['datasets'][k]['X'],
+                        'labels': case['datasets'][k]['labels'] if st['use_desc'] else None,
+                        'descs': case['datasets'][k]['descs'],
+                        'ddesc': case['datasets'][k]['ddesc']} for k in st['which']]
+    if st['kind'] == 'movie':
+        sub.update(times=case['times'], tname=case['tname'], bins=st['bins'],
+                   as_list=st['as_list'], tform=st['tform'])
+    return sub
+
+
 def generate(rng, tier):
     n = 1500 if tier == 'quick' else 90000
     for i in range(n):
         r = rng.random()
         if r < 0.04:
             yield gen_unique(rng)
-        elif r < 0.54:
+        elif r < 0.48:
             yield gen_single(rng)
-        elif r < 0.80:
+        elif r < 0.71:
             yield gen_list(rng)
-        else:
+        elif r < 0.89:
             yield gen_movie(rng)
+        else:
+            yield gen_session(rng)
+
+
+def search(rng, tier):
+    """failing-input search: the ordinary stream with every third case a reuse session"""
+    gen = generate(rng, 'thorough')
+    k = 0
+    while True:
+        k += 1
+        if k % 3 == 0:
+            yield gen_session(rng)
+        else:
+            yield next(gen)
 
 
 # ------------------------------------------------------------------ real code adaptor
@@ -515,6 +702,8 @@ def _build(case, ds, k, temporal=False):
         X = X.reshape(len(ds['X']), case['P'])
     if var['dtype'] == 'int':
         X = X.astype(np.int64)
+    elif var.get('np_dtype') == 'float32':
+        X = X.astype(np.float32)     # small integers / eighths are exact in float32
     descs = {name: list(v) for name, v in ds['descs'].items()}
     if var.get('perm'):
         p = var['perm'][k]
@@ -572,14 +761,16 @@ def _call_kwargs(case):
     return kw
 
 
-def call_library(case):
-    """run the real rsatoolbox; returns the RDMs object (exceptions propagate)"""
+def call_library(case, objs=None):
+    """run the real rsatoolbox; returns the RDMs object (exceptions propagate).
+    `objs`: already constructed Dataset objects to (re)use instead of building fresh ones"""
     from rsatoolbox.rdm import calc_rdm, calc_rdm_movie
     kw = _call_kwargs(case)
     with warnings.catch_warnings():
         warnings.simplefilter('ignore')
         if case['kind'] == 'movie':
-            dss = [_build(case, ds, k, temporal=True) for k, ds in enumerate(case['datasets'])]
+            dss = objs if objs is not None else \
+                [_build(case, ds, k, temporal=True) for k, ds in enumerate(case['datasets'])]
             arg = dss if case['as_list'] else dss[0]
             if case['bins'] is not None:
                 bt = case.get('tform', {}).get('bins_type')
@@ -595,7 +786,8 @@ def call_library(case):
             if case['tname'] != 'time':
                 kw['time_descriptor'] = case['tname']
             return calc_rdm_movie(arg, **kw)
-        dss = [_build(case, ds, k) for k, ds in enumerate(case['datasets'])]
+        dss = objs if objs is not None else \
+            [_build(case, ds, k) for k, ds in enumerate(case['datasets'])]
         if case['remove_mean']:
             kw['remove_mean'] = True
         if case['kind'] == 'list' or case['variant']['wrap'] == 'list1':
@@ -654,7 +846,79 @@ def canon_impl(case, rdms):
     return {'conds': sorted(conds), 'rdms': out, 'pdesc': pdesc}
 
 
+def _snap_val(v):
+    """bit-exact, type-exact picture of a value held by a dataset"""
+    if isinstance(v, np.ndarray):
+        body = repr(v.tolist()) if v.dtype == object else v.tobytes().hex()
+        return ['ndarray', v.dtype.str, list(v.shape), body]
+    if isinstance(v, dict):
+        return ['dict', [[repr(k), _snap_val(x)] for k, x in v.items()]]
+    if isinstance(v, (list, tuple)):
+        return [type(v).__name__, [_snap_val(x) for x in v]]
+    return [type(v).__name__, repr(v)]
+
+
+SNAP_FIELDS = ('measurements', 'descriptors', 'obs_descriptors', 'channel_descriptors',
+               'time_descriptors')
+
+
+def _snapshot(obj):
+    return {f: _snap_val(getattr(obj, f)) for f in SNAP_FIELDS if hasattr(obj, f)}
+
+
+def _snap_diff(before, after):
+    """None, or which field of which dataset is no longer bit-identical"""
+    for k, (b, a) in enumerate(zip(before, after)):
+        for f in SNAP_FIELDS:
+            if b.get(f) != a.get(f):
+                if f == 'measurements' and b[f][1:3] == a[f][1:3]:
+                    return f'dataset {k}: measurements changed (same dtype / shape, other values)'
+                return f'dataset {k}: {f} changed'
+    return None
+
+
+def _session_objects(case):
+    proto = {'variant': _subcase(case, 0)['variant'], 'P': case['P']}
+    if case['temporal']:
+        proto.update(times=case['times'], tname=case['tname'],
+                     tform={'default_time': False, 'tdesc_type': case.get('tdesc_type', 'array')})
+    return [_build(proto, ds, k, temporal=case['temporal'])
+            for k, ds in enumerate(case['datasets'])]
+
+
+def run_session(case):
+    """[(sub-case, RDMs | exception, intact: None | text)] of the successive calls on ONE set of
+    dataset objects"""
+    objs = _session_objects(case)
+    before = [_snapshot(o) for o in objs]
+    out = []
+    for i, st in enumerate(case['steps']):
+        sub = _subcase(case, i)
+        try:
+            res = call_library(sub, [objs[k] for k in st['which']])
+        except Exception as exc:  # noqa: BLE001
+            res = exc
+        out.append((sub, res, _snap_diff(before, [_snapshot(o) for o in objs])))
+    return out, objs
+
+
 def run_impl(case):
+    if case['kind'] == 'session':
+        steps, intact = [], []
+        calls, objs = run_session(case)
+        for (sub, res, diff), st in zip(calls, case['steps']):
+            if isinstance(res, Exception):
+                steps.append({'exc': exc_name(res)})
+            else:
+                o = canon_impl(sub, res)
+                if sub['kind'] == 'single' and sub['variant']['dtype'] == 'int' \
+                        and sub['datasets'][0]['labels'] is not None and 'exc' not in o:
+                    from rsatoolbox.data import average_dataset_by
+                    avg, uniq, _ = average_dataset_by(objs[st['which'][0]], 'cond')
+                    o['means'] = {lkey(u): [float(x) for x in row] for u, row in zip(uniq, avg)}
+                steps.append(o)
+            intact.append(diff)
+        return {'steps': steps, 'intact': intact}
     if case['kind'] == 'unique':
         from rsatoolbox.util.data_utils import get_unique_inverse
         arr = np.array(case['labels']) if case['as_array'] else list(case['labels'])
@@ -762,6 +1026,10 @@ def _is_base(var):
 
 
 def model_requests(case):
+    if case['kind'] == 'session':
+        # the model is a function of the call's input alone: every call of a session is asked as
+        # the stand-alone call on the original numbers (Props `session_calls_independent`)
+        return [r for i in range(len(case['steps'])) for r in model_requests(_subcase(case, i))]
     if case['kind'] == 'unique':
         return [{'op': 'c01.unique', 'labels': case['labels']}]
     req = _common(case)
@@ -874,6 +1142,17 @@ def model_result(case, answers):
             return a
     if case['kind'] == 'unique':
         return {'unique': [lkey(v) for v in answers[0]['unique']], 'inverse': answers[0]['inverse']}
+    if case['kind'] == 'session':
+        steps, a0 = [], 0
+        for i in range(len(case['steps'])):
+            sub = _subcase(case, i)
+            n = len(model_requests(sub))
+            steps.append(model_result(sub, answers[a0:a0 + n]))
+            a0 += n
+        for m in steps:
+            if isinstance(m, dict) and 'model_error' in m:
+                return m
+        return {'steps': steps, 'intact': [None] * len(steps)}
     dss = case['datasets']
     labelled = dss[0]['labels'] is not None
     var = case['variant']
@@ -949,9 +1228,40 @@ def model_result(case, answers):
     return {'conds': sorted(conds), 'pdesc': {}, 'rdms': rdms}
 
 
+def _tol(case, oracle_side=False):
+    """float32 measurements are computed with in float32 by the library (descriptor=None) or
+    averaged in float32 (np.mean of float32 rows): single precision tolerances there"""
+    if case.get('variant', {}).get('np_dtype') == 'float32':
+        return (1e-4, 2e-5)
+    return (1e-8, 1e-11) if oracle_side else (RTOL, ATOL)
+
+
+def _step_name(case, i):
+    st = case['steps'][i]
+    opts = [st['method']]
+    if st['remove_mean']:
+        opts.append('remove_mean=True')
+    opts.append("descriptor='cond'" if st['use_desc'] else 'descriptor=None')
+    if st['kind'] == 'movie':
+        opts.append('bins' if st['bins'] is not None else 'no bins')
+    what = 'calc_rdm_movie' if st['kind'] == 'movie' else 'calc_rdm'
+    arg = 'datasets %s' % st['which'] if (st['kind'] == 'list' or st.get('as_list')
+                                          or st.get('wrap') == 'list1') else 'dataset %d' % st['which'][0]
+    return f'call {i + 1} of {len(case["steps"])}: {what}({arg}, {", ".join(opts)})'
+
+
 def compare(case, impl, model):
     if isinstance(model, dict) and 'model_error' in model:
         return f'model error {model}'
+    if case['kind'] == 'session':
+        for i in range(len(case['steps'])):
+            d = compare(_subcase(case, i), impl['steps'][i], model['steps'][i])
+            if d:
+                return f'{_step_name(case, i)}: {d}'
+            if impl['intact'][i]:
+                return f'{_step_name(case, i)} modified its input: {impl["intact"][i]}'
+        return None
+    rtol, atol = _tol(case)
     if case['kind'] == 'unique':
         return None if impl == model else f'get_unique_inverse: impl {impl} != model {model}'
     if 'exc' in impl:
@@ -967,7 +1277,7 @@ def compare(case, impl, model):
                 return f'rdm {k} pair {pk}: absent in impl'
             if (x is None) != (y is None):
                 return f'rdm {k} pair {pk}: impl {x} != model {y} (missing-ness)'
-            if x is not None and not close(x, y, RTOL, ATOL):
+            if x is not None and not close(x, y, rtol, atol):
                 return f'rdm {k} pair {pk}: impl {x!r} != model {y!r}'
         for name, want in b['rdesc'].items():
             got = a['rdesc'].get(name, 'absent')
@@ -982,16 +1292,68 @@ def compare(case, impl, model):
         if got is None or sorted(got) != sorted(model['means']):
             return f"condition means of int data: impl {got} != model {model['means']}"
         for c, row in model['means'].items():
-            if len(got[c]) != len(row) or any(not close(x, y, RTOL, ATOL) for x, y in zip(got[c], row)):
+            if len(got[c]) != len(row) or any(not close(x, y, rtol, atol) for x, y in zip(got[c], row)):
                 return f'condition mean of {c} (int data): impl {got[c]} != model {row}'
     return None
 
 
 # ------------------------------------------------------------------ features
 
+def _session_features(case, impl):
+    steps, var = case['steps'], case['variant']
+    br = ['session:temporal' if case['temporal'] else 'session:plain',
+          'session:dtype_' + var['dtype'], 'session:layout_' + var['layout'],
+          'session:steps_%d' % len(steps)]
+    first = steps[0]
+    if _writer_prone(first) or (case['temporal'] and first['method'] == 'correlation'):
+        br.append('session:writer_first')
+        if not first['use_desc']:
+            br.append('session:writer_first_nodesc')
+            if var['dtype'] == 'float':
+                br.append('session:writer_first_nodesc_float64')
+    if first['method'] == 'correlation':
+        br.append('session:correlation_first')
+    if first['remove_mean']:
+        br.append('session:remove_mean_first')
+    for a, b in zip(steps, steps[1:]):
+        br.append('session:%s_then_%s' % ('desc' if a['use_desc'] else 'nodesc',
+                                          'desc' if b['use_desc'] else 'nodesc'))
+        if a['method'] != b['method']:
+            br.append('session:method_changes')
+        if bool(a['remove_mean']) != bool(b['remove_mean']):
+            br.append('session:remove_mean_changes')
+        la, lb = _step_is_list(a), _step_is_list(b)
+        if la != lb:
+            br.append('session:single_then_list' if lb else 'session:list_then_single')
+        if case['temporal'] and (a['bins'] is None) != (b['bins'] is None):
+            br.append('session:bins_change')
+    if any(_step_is_list(st) for st in steps):
+        br.append('session:list_step')
+    if len(case['datasets']) > 1:
+        br.append('session:two_datasets')
+    for st in steps[1:]:
+        br.append('session:later_' + st['method'])
+    exc = None
+    if isinstance(impl, dict) and 'steps' in impl:
+        exc = next((s_['exc'] for s_ in impl['steps'] if 'exc' in s_), None)
+    return {'kind': 'session', 'method': first['method'], 'P': case['P'],
+            'n_ds': len(case['datasets']), 'labelled': bool(first['use_desc']),
+            'wrapped': _step_is_list(first), 'remove_mean': bool(first['remove_mean']),
+            'opts_given': bool(first['opts_given']), 'bins': False, 'dtype': var['dtype'],
+            'desc_type': var['desc_type'], 'n_obs': len(case['datasets'][0]['X']),
+            'n_steps': len(steps), 'temporal': bool(case['temporal']), 'layout': var['layout'],
+            'exc': exc, 'branches': sorted(set(br))}
+
+
+def _step_is_list(st):
+    return st['kind'] == 'list' or bool(st.get('as_list')) or st.get('wrap') == 'list1'
+
+
 def features(case, impl):
     if case['kind'] == 'unique':
         return {'kind': 'unique', 'branches': ['unique']}
+    if case['kind'] == 'session':
+        return _session_features(case, impl)
     dss = case['datasets']
     labelled = dss[0]['labels'] is not None
     var = case['variant']
@@ -1104,6 +1466,12 @@ def features(case, impl):
 def nontrivial_key(case, impl):
     if case['kind'] == 'unique':
         return ['unique', case['labels']] if len(set(map(lkey, case['labels']))) > 1 else None
+    if case['kind'] == 'session':
+        if not isinstance(impl, dict) or 'steps' not in impl:
+            return ['exc', json.dumps(case, sort_keys=True, default=str)]
+        keys = [nontrivial_key(_subcase(case, i), r) for i, r in enumerate(impl['steps'])]
+        return json.dumps(case, sort_keys=True, default=str) if any(k is not None for k in keys) \
+            else None
     if not isinstance(impl, dict) or 'exc' in impl:
         return ['exc', json.dumps(case, sort_keys=True, default=str)]
     vals = [v for r in impl['rdms'] for v in r['values'].values() if v is not None]
@@ -1221,10 +1589,53 @@ def oracle(case):
                 return {'what': 'inverse index does not point at the element', 'observed': int(inv[k]),
                         'expected': want.index(lkey(lab)), 'features': feats}
         return None
-    f0 = features(case, None)
+    if case['kind'] == 'session':
+        return _oracle_session(case)
     try:
         rdms = call_library(case)
     except Exception as exc:  # noqa: BLE001
+        rdms = exc
+    return _oracle_result(case, rdms)
+
+
+def _oracle_session(case):
+    """every call of the session against the formula on the case's ORIGINAL numbers (exact
+    rationals the library never touches); the reused objects must stay bit-identical"""
+    calls, _objs = run_session(case)
+    modified = [(i, diff) for i, (_s, _r, diff) in enumerate(calls) if diff]
+    for i, (sub, res, _diff) in enumerate(calls):
+        o = _oracle_result(sub, res)
+        if o:
+            if i:
+                o['what'] += ' (reuse session: a later call on a dataset object that was analysed before)'
+            else:
+                o['what'] += ' (reuse session: first call)'
+            o['where'] = _step_name(case, i) + ('; ' + o['where'] if o.get('where') else '')
+            o['call'] = i + 1
+            earlier = [(j, d) for j, d in modified if j < i]
+            if earlier:
+                o['dataset_state'] = (f'{_step_name(case, earlier[0][0])} had modified its input '
+                                      f'({earlier[0][1]}); the expected value is the formula on the '
+                                      'data the Dataset was constructed with')
+            o['features'] = dict(o.get('features', {}), session=True, call=i + 1,
+                                 after_modification=bool(earlier))
+            return o
+    if modified:
+        i, diff = modified[0]
+        return {'what': 'a call modified the dataset it was given (a later analysis of the same '
+                        'object no longer sees the original observations)',
+                'where': f'{_step_name(case, i)}; {diff}', 'observed': 'measurements / descriptors differ from their state '
+                'before the call', 'expected': 'bit-identical', 'call': i + 1,
+                'features': {'symptom': 'input-modified', 'session': True, 'call': i + 1}}
+    return None
+
+
+def _oracle_result(case, rdms):
+    """judge what one call returned (`rdms`: RDMs object or the exception it raised)"""
+    f0 = features(case, None)
+    o_rtol, o_atol = _tol(case, oracle_side=True)
+    if isinstance(rdms, Exception):
+        exc = rdms
         return {'what': f'{case["kind"]} call raised {type(exc).__name__}',
                 'message': str(exc)[:160], 'observed': exc_name(exc), 'expected': 'an RDMs object',
                 'features': {'symptom': 'exception', 'exc': exc_name(exc)}}
@@ -1246,7 +1657,7 @@ def oracle(case):
                 x = g['values'].get(pkey(a, b), 'absent')
                 if a in means and b in means:
                     want = _o_dist(case, means[a], means[b], noise)
-                    if x == 'absent' or x is None or not close(x, want, 1e-8, 1e-11):
+                    if x == 'absent' or x is None or not close(x, want, o_rtol, o_atol):
                         return {'what': f'value is not the {case["method"]} formula on the two '
                                         'condition means', 'where': f'RDM {k}, pair ({a}, {b})',
                                 'observed': x, 'expected': want,
@@ -1296,6 +1707,8 @@ def shrink(case, still_fails):
     """greedy: fewer datasets, observations, channels-free options, simpler variant"""
     if case['kind'] == 'unique':
         return case
+    if case['kind'] == 'session':
+        return _shrink_session(case, still_fails)
     cur = json.loads(json.dumps(case))
 
     try:
@@ -1354,4 +1767,84 @@ def shrink(case, still_fails):
                     del c['datasets'][k]['descs'][name]
                     if attempt(c):
                         cur, changed = c, True
+    return cur
+
+
+def _shrink_session(case, still_fails):
+    """fewer calls (order kept), one dataset, plainest memory form, fewer observations"""
+    cur = json.loads(json.dumps(case))
+
+    def symptom(c):
+        try:
+            o = oracle(c)
+        except Exception:  # noqa: BLE001
+            return None
+        return (o.get('features', {}).get('symptom'), ) if o else None
+
+    base = symptom(cur)
+    if base is None:
+        return case
+
+    def attempt(c):
+        return symptom(c) == base and bool(still_fails(c))
+
+    changed, rounds = True, 0
+    while changed and rounds < 4:
+        changed, rounds = False, rounds + 1
+        for i in range(len(cur['steps']) - 1, -1, -1):
+            if len(cur['steps']) > 1:
+                c = json.loads(json.dumps(cur))
+                del c['steps'][i]
+                if attempt(c):
+                    cur, changed = c, True
+        if len(cur['datasets']) > 1:
+            for keep in range(len(cur['datasets'])):
+                c = json.loads(json.dumps(cur))
+                c['datasets'] = [c['datasets'][keep]]
+                ok = True
+                for st in c['steps']:
+                    if keep not in st['which']:
+                        ok = False
+                        break
+                    if isinstance(st['noise'], dict) and 'per' in st['noise']:
+                        m = st['noise']['per'][st['which'].index(keep)]
+                        st['noise'] = None if m is None else {'one': m}
+                    st['which'] = [0]
+                    if st['kind'] == 'list':
+                        st['kind'], st['wrap'] = 'single', 'list1'
+                if ok and attempt(c):
+                    cur, changed = c, True
+                    break
+        for key, val in (('layout', 'C'), ('desc_type', 'array'), ('dtype', 'float')):
+            if cur['variant'].get(key) != val:
+                c = json.loads(json.dumps(cur))
+                c['variant'][key] = val
+                if attempt(c):
+                    cur, changed = c, True
+        for st_i in range(len(cur['steps'])):
+            st = cur['steps'][st_i]
+            for key, val in (('wrap', 'single'), ('as_list', False)):
+                if st.get(key) not in (None, val) and len(st['which']) == 1 and st['kind'] != 'list':
+                    c = json.loads(json.dumps(cur))
+                    c['steps'][st_i][key] = val
+                    if attempt(c):
+                        cur, changed = c, True
+        n = len(cur['datasets'][0]['X'])
+        for i in range(n - 1, -1, -1):
+            if len(cur['datasets'][0]['X']) <= 2:
+                break
+            c = json.loads(json.dumps(cur))
+            for d in c['datasets']:
+                del d['X'][i]
+                del d['labels'][i]
+                d['descs'] = {nm: vv[:i] + vv[i + 1:] for nm, vv in d['descs'].items()}
+            if attempt(c):
+                cur, changed = c, True
+        for name in list(cur['datasets'][0]['descs']):
+            if name != 'cond':
+                c = json.loads(json.dumps(cur))
+                for d in c['datasets']:
+                    d['descs'].pop(name, None)
+                if attempt(c):
+                    cur, changed = c, True
     return cur
